@@ -653,6 +653,18 @@ def interact(ctx) -> None:
         ctx.ob("INTERACT", "cutoff mask", e.loc(), cut_ok,
                "entries with |U| < interaction_cutoff are zeroed, all others unchanged" if cut_ok else
                "the cutoff is not applied as M[abs(M) < self.interaction_cutoff] = 0")
+        # (3b) the SLM-masked matrix is derived from the matrix *after* the cutoff (or receives its own cutoff store)
+        mk0 = strip_typed(masked)
+        clones = [i for i, x in enumerate(p.events) if x.kind == "call" and x.name == ".clone" and x.recv is not None
+                  and canon(strip_typed(x.recv)) == canon(strip_typed(full)) and mk0[0] == "mcall"]
+        cut_idx = [i for i, x in enumerate(p.events) if x in cut and strip_typed(x.target[1])[0] == "cmp"]
+        own_cut = any(x.kind == "setitem" and canon(strip_typed(x.target[0])) == canon(mk0) and is_const(x.value, 0)
+                      and strip_typed(x.target[1])[0] == "cmp" and "interaction_cutoff" in show(x.target[1]) for x in p.events)
+        ord_ok = own_cut or (bool(clones) and bool(cut_idx) and min(cut_idx) < clones[-1])
+        ctx.ob("INTERACT", "cutoff before the SLM copy", e.loc(), ord_ok,
+               "the masked matrix is cloned from the matrix after the cutoff was applied" if ord_ok else
+               "the SLM-masked matrix is cloned before the interaction cutoff is applied: until the SLM mask ends, "
+               "interactions below the cutoff between unmasked atoms are kept")
         fd = field_defs(prog, prog.cls(PA + "PulserData"))
         okc = any(show(v).endswith("config.interaction_cutoff") for v, _ in fd.get("interaction_cutoff", []))
         ctx.ob("INTERACT", "cutoff source", g.loc(), okc,
